@@ -55,6 +55,26 @@ def gen_script(r):
     return (mx, ' '.join(ops))
 
 
+def enumerate_scripts(length):
+    """ALL scripts of exactly `length` operations over {connect, close k, request on k, set decode level,
+    shutdown, drop handle} (k ranges over the connections made so far; every shorter script is a prefix,
+    and a scenario is judged after every operation)"""
+    out = []
+
+    def go(prefix, conns):
+        if len(prefix) == length:
+            out.append(' '.join(prefix))
+            return
+        go(prefix + ['C'], conns + 1)
+        for k in range(conns):
+            go(prefix + [f'X{k}'], conns)
+            go(prefix + [f'R{k}:{len(prefix) + 1}'], conns)
+        for o in ('D', 'S', 'H'):
+            go(prefix + [o], conns)
+    go([], 0)
+    return out
+
+
 def to_coq(c):
     mx, script = c
     out = []
@@ -151,6 +171,13 @@ def run(ctx):
         n = 320 if ctx.quick() else 2400
         while len(cases) < n:
             cases.append(gen_script(ctx.rng))
+        exhaustive_part = 0
+        if not ctx.quick():
+            # thorough: additionally every script of length 5 for max_sessions 1 and 2 (3440 each)
+            ex = [(m, sc) for m in (1, 2) for sc in enumerate_scripts(5)]
+            exhaustive_part = len(ex)
+            cases += ex
+        ctx.coverage['exhaustive_scripts_of_length_5'] = exhaustive_part
     impl, both = evaluate(ctx, cases)
     suspects = [k for k, (i, b) in enumerate(zip(impl, both)) if i != b.split('#')[0] or i != b.split('#')[1]]
     retried = len(suspects)
